@@ -11,6 +11,7 @@ import (
 	"fmt"
 	"io"
 	"os"
+	"runtime"
 	"strconv"
 	"strings"
 	"sync"
@@ -270,6 +271,7 @@ type pipeRun struct {
 	ops       [][]string // per source: Coq sop terms
 	seen      []bool     // per source: a notification of it reached the pipe
 	raceLost  [][]Ev     // per source: the batch whose notification was inverted (first writer)
+	stale     [][]Ev     // per source: written before the pipe existed, notified after
 	dstAtDel  int        // destination size when the pipe was deleted
 	postDel   bool       // something matching was written after deletion
 	nontriv   bool
@@ -545,7 +547,7 @@ func (r *runner) run() error {
 	r.flushed = make([]int, len(sc.Sources))
 	for _, pd := range sc.Pipes {
 		r.pipes = append(r.pipes, &pipeRun{def: pd, pre: make([]int, len(sc.Sources)), preFl: make([]int, len(sc.Sources)), ops: make([][]string, len(sc.Sources)),
-			seen: make([]bool, len(sc.Sources)), raceLost: make([][]Ev, len(sc.Sources))})
+			seen: make([]bool, len(sc.Sources)), raceLost: make([][]Ev, len(sc.Sources)), stale: make([][]Ev, len(sc.Sources))})
 	}
 	for si, st := range sc.Steps {
 		what := fmt.Sprintf("step %d (%s)", si, st.Kind)
@@ -872,6 +874,86 @@ func (r *runner) run() error {
 				p.seen[s] = true
 				p.nontriv = true
 			}
+		case "stale":
+			// pipe st.Pipe is created while the WriteEvent of a completed write is still in the channel: the
+			// notificatior is stopped at an older pipe's lock (which it needs for the first of two writes)
+			b1, b2 := st.Batches[0], st.Batches[1]
+			s := b1.Src
+			id := r.srcIds[s]
+			var older *pipeRun
+			for _, p := range r.livePipes() {
+				if p.def.Match[s] && p.seen[s] {
+					older = p
+				}
+			}
+			if older == nil || id == "" {
+				return fmt.Errorf("%s: needs a live pipe that knows the source", what)
+			}
+			np := r.pipes[st.Pipe]
+			h0 := hitCount(id)
+			live := 0
+			for _, p := range r.livePipes() {
+				if p.def.Match[s] {
+					live++
+				}
+			}
+			var ierr error
+			tl := tagLine(sc.Sources[s])
+			r.srv.Pipes.VC10WithPipeLock(older.def.Name, func() {
+				if ierr = writeBatch(r.srv, tl, b1.Evs); ierr != nil {
+					return
+				}
+				// the notificatior took the first WriteEvent and waits for the lock we hold
+				if !WaitFor(deadline, func() bool {
+					return r.srv.Partitions.VC10PendingWriteEvents() == 0 && notificatorAtLock(fmt.Sprintf("%p", r.srv.Pipes))
+				}) {
+					ierr = fmt.Errorf("%s: the notificatior did not take the WriteEvent", what)
+					return
+				}
+				if ierr = writeBatch(r.srv, tl, b2.Evs); ierr != nil {
+					return
+				}
+				r.syncSrc(s)
+				q := "CREATE PIPE " + np.def.Name
+				if np.def.From != "" {
+					q += " FROM " + np.def.From
+				}
+				_, ierr = r.srv.Exec(q)
+			})
+			if ierr != nil {
+				return ierr
+			}
+			r.written[s] = append(append(r.written[s], b1.Evs...), b2.Evs...)
+			r.flushed[s] = len(r.written[s])
+			np.created = true
+			copy(np.pre, r.counts())
+			copy(np.preFl, r.flushed)
+			np.stale[s] = b2.Evs
+			np.nontriv = true
+			np.seen[s] = true
+			end, _ := endPos(r.srv, id)
+			if err := r.barrier(); err != nil {
+				return err
+			}
+			if !r.waitCaughtUp(r.counts()) {
+				r.fail("pipe-not-caught-up", what+": an older pipe did not copy the two batches")
+			}
+			// the new pipe got the second write's notification: its worker copies that batch and parks
+			WaitFor(deadline, func() bool {
+				pos, _, _, ok := r.srv.Pipes.VC10PipeState(np.def.Name, id)
+				return ok && pos == end
+			})
+			WaitFor(deadline, func() bool { return hitCount(id) >= h0+live+1 })
+			for _, p := range r.pipes {
+				if !p.created || !p.def.Match[s] || p == np {
+					continue
+				}
+				if p.deleted {
+					p.postDel = true
+				}
+				p.ops[s] = append(p.ops[s], GApp("SWrite", gEvents(p, append(append([]Ev{}, b1.Evs...), b2.Evs...))))
+				p.nontriv = true
+			}
 		case "rearm":
 			// a source whose worker sits in its 10 s wait: write shortly before the wait expires. The data is not
 			// readable, so the notification finds the worker charged and leaves it asleep; the wait expires;
@@ -926,6 +1008,19 @@ func (r *runner) run() error {
 	return nil
 }
 
+// notificatorAtLock: is the notificatior goroutine of the pipe service at address svc inside onWriteEvent (where the
+// only thing it can wait for is the pipe's lock)? Read off the goroutine dump.
+func notificatorAtLock(svc string) bool {
+	buf := make([]byte, 4<<20)
+	n := runtime.Stack(buf, true)
+	for _, g := range strings.Split(string(buf[:n]), "\n\n") {
+		if strings.Contains(g, "pipe.(*Service).notificatior("+svc) {
+			return strings.Contains(g, "pipe.(*ppipe).onWriteEvent(")
+		}
+	}
+	return false
+}
+
 // ---------------------------------------------------------------- observation, oracle, cases
 
 func hasSuffix(p, suf [][2]string) bool {
@@ -968,6 +1063,14 @@ func sameDEvs(a, b []DEv) bool {
 func transform(tags [][2]string, e Ev) DEv {
 	f := append(append([][2]string{}, e.Flds...), tags...)
 	return DEv{Ts: e.Ts, Msg: e.Msg, Flds: f}
+}
+
+func transformAll(tags [][2]string, evs []Ev) []DEv {
+	res := make([]DEv, len(evs))
+	for i, e := range evs {
+		res[i] = transform(tags, e)
+	}
+	return res
 }
 
 func key(e DEv) string { return fmt.Sprintf("%d|%s", e.Ts, e.Msg) }
@@ -1064,6 +1167,8 @@ func (r *runner) finish() ([]Case, error) {
 						cls = "pipe-filter-not-applied"
 					} else if len(hist) > 0 && sameDEvs(got, append(hist, want...)) {
 						cls = "pipe-copied-unflushed-history"
+					} else if st := p.stale[s]; len(st) > 0 && sameDEvs(got, append(transformAll(tg, st), want...)) {
+						cls = "pipe-copied-pre-creation-events"
 					} else if lost := p.raceLost[s]; lost != nil {
 						// exactly the held writer's batch is missing
 						var w2 []DEv
@@ -1093,8 +1198,12 @@ func (r *runner) finish() ([]Case, error) {
 			if !p.def.Match[s] {
 				ops = nil
 			}
+			coq := GApp("KSrc", gPairs(tg), GNat(p.preFl[s]), gEvents(p, r.written[s][p.preFl[s]:p.pre[s]]), GList(ops), GList(obs))
+			if p.stale[s] != nil && p.def.Match[s] {
+				coq = GApp("KStale", gPairs(tg), GNat(p.pre[s]-len(p.stale[s])), gEvents(p, p.stale[s]), GList(ops), GList(obs))
+			}
 			cs := Case{
-				Coq:        GApp("KSrc", gPairs(tg), GNat(p.preFl[s]), gEvents(p, r.written[s][p.preFl[s]:p.pre[s]]), GList(ops), GList(obs)),
+				Coq:        coq,
 				Replay:     sc,
 				NonTrivial: p.nontriv && p.def.Match[s] && len(ops) > 0,
 				Oracle:     r.viol,
@@ -1382,6 +1491,33 @@ func genUnflushed(r *Rng) *Scenario {
 	return sc
 }
 
+// a pipe created while the WriteEvent of a completed write is still queued
+func genStale(r *Rng) *Scenario {
+	g := &gen{r: r, ts: 100}
+	sc := &Scenario{Stream: "stale-notification", Chunk: 1 << 20}
+	ns := r.Range(1, 2)
+	sc.Sources = mkSources(r, ns)
+	all := make([]bool, ns)
+	for i := range all {
+		all[i] = true
+	}
+	sc.Pipes = []PipeDef{{Name: pipeName(), Match: all}, {Name: pipeName(), Match: all}}
+	first := Step{Kind: "wave", FlushFirst: r.Chance(1, 2)}
+	for s := 0; s < ns; s++ {
+		first.Batches = append(first.Batches, g.batch(s, r.Range(1, 3)))
+	}
+	sc.Steps = []Step{{Kind: "create", Pipe: 0}, first,
+		{Kind: "stale", Pipe: 1, Batches: []Batch{g.batch(0, r.Range(1, 3)), g.batch(0, r.Range(1, 3))}}}
+	for w := 0; w < r.Range(0, 2); w++ {
+		st := Step{Kind: "wave", FlushFirst: r.Chance(1, 2)}
+		for s := 0; s < ns; s++ {
+			st.Batches = append(st.Batches, g.batch(s, r.Range(1, 3)))
+		}
+		sc.Steps = append(sc.Steps, st)
+	}
+	return sc
+}
+
 // concurrent writers on sources every live pipe already knows
 func genPar(r *Rng) *Scenario {
 	g := &gen{r: r, ts: 100}
@@ -1447,7 +1583,7 @@ func runScenario(sc *Scenario) ([]Case, error) {
 	cases, err := r.finish()
 	if err == nil && r.viol == nil && len(cases) > 0 && cases[0].Oracle != nil {
 		switch cases[0].Oracle.Class {
-		case "pipe-filter-not-applied", "pipe-first-notification-reorder", "pipe-copied-unflushed-history":
+		case "pipe-filter-not-applied", "pipe-first-notification-reorder", "pipe-copied-unflushed-history", "pipe-copied-pre-creation-events":
 		default:
 			atomic.AddInt32(&badScenarios, 1)
 		}
@@ -1526,6 +1662,9 @@ func main() {
 		}
 		for i := 0; i < c.N(8); i++ {
 			jobs = append(jobs, genUnflushed(c.Rng.Fork()))
+		}
+		for i := 0; i < c.N(6); i++ {
+			jobs = append(jobs, genStale(c.Rng.Fork()))
 		}
 		results := make([][]Case, len(jobs))
 		errs := make([]error, len(jobs))
